@@ -6,7 +6,7 @@ import numpy as np
 from classy_blocks.construct.array import Array
 from classy_blocks.construct.curves.curve import FunctionCurveBase
 from classy_blocks.construct.curves.interpolators import InterpolatorBase, LinearInterpolator, SplineInterpolator
-from classy_blocks.types import PointListType
+from classy_blocks.types import PointListType, PointType
 from classy_blocks.util import functions as f
 
 
@@ -60,6 +60,27 @@ class InterpolatedCurveBase(FunctionCurveBase, abc.ABC):
 
 class LinearInterpolatedCurve(InterpolatedCurveBase):
     _interpolator = LinearInterpolator
+
+    def get_closest_param(self, point: PointType) -> float:
+        """The curve is a polyline: the closest point is found exactly, segment by segment
+        (a minimization can step over a corner of the polyline and end in a far local minimum)"""
+        point = np.array(point)
+        points = self.array.points
+        params = self.function.params
+
+        starts, ends = points[:-1], points[1:]
+        vectors = ends - starts
+        lengths_2 = np.sum(vectors**2, axis=1)
+        lengths_2[lengths_2 == 0] = 1  # coincident points: the segment is a single point
+
+        # position of the closest point along each segment, 0 (start) ... 1 (end)
+        fractions = np.clip(np.sum((point - starts) * vectors, axis=1) / lengths_2, 0, 1)
+        distances = np.sqrt(np.sum((starts + vectors * fractions[:, np.newaxis] - point) ** 2, axis=1))
+
+        i_closest = np.argmin(distances)
+        param = params[i_closest] + fractions[i_closest] * (params[i_closest + 1] - params[i_closest])
+
+        return float(np.clip(param, self.bounds[0], self.bounds[1]))
 
 
 class SplineInterpolatedCurve(InterpolatedCurveBase):
